@@ -14,7 +14,8 @@
 (***************************************************************************)
 EXTENDS Integers, Sequences, FiniteSets, TLC, Json
 
-Bodies == {"b0", "b1", "b2"}            \* b0 is the empty body
+Bodies == {"b0", "b1", "b2", "b3"}      \* b0 is the empty body; b3 is b2 behind the anti-XSSI prefix ")]}'\n" (framing the
+                                        \* parser strips, but part of the signed bytes like any other)
 Nonces == {"n1", "n2"}
 Kids == {1, 2, 3}
 Keys == {1, 2, 3, 9}                    \* key i is registered under id i; 9 belongs to the attacker
@@ -78,7 +79,7 @@ Verifier(x) ==
 (***************************************************************************)
 (* The universe: slices around genuine exchanges (DESIGN.md section 6 C01).*)
 (***************************************************************************)
-Clients == [retained : {"b0", "b1"}, resp : {"b0", "b2"}, nonce : {"n1"}, kidPassed : {1, 2}]
+Clients == [retained : {"b0", "b1"}, resp : {"b0", "b2", "b3"}, nonce : {"n1"}, kidPassed : {1, 2}]
 HistsFor(l) == {{}, {3}, {3 - l}, {3 - l, 3}}          \* any number of historical keys, with or without the other id
 Cfgs == UNION {{[cfgLatest |-> l, cfgHist |-> h] : h \in HistsFor(l)} : l \in {1, 2}}
 Vec(c, g, kidMeta, sKey, sOrder, sReq, sResp, sNonce, sKid, form, hf, shape, wrap) ==
